@@ -10,7 +10,7 @@ from sx.fsmodel import FS
 
 PROPERTY = "C16"
 BOUNDS = {
-    "quick": "real asyncio loop in virtual time; exit moment k sym [0,12] loop turns after entry (every file operation of the model is a suspension point, so k lands before the saver first runs, inside each operation of a save, and in its sleep); body ends normally or raises; fault bits: connect fails (with a transport error, or - stub transport - interrupted by CancelledError), disconnect fails; transport kinds: stub, TCPTransport and SerialTransport on fake reader/writer, MQTTClient on a fake broker client; virtual durations D in {0,1,899,900,901,1800,2700} s in a first or a second session of the same gateway object; stub transport whose connect/disconnect suspend or not; persistence file present (2 nodes) or missing; one partition with file handles of symbolic speed (each handle 1 or 5 suspensions per operation)",
+    "quick": "real asyncio loop in virtual time; exit moment k sym [0,12] loop turns after entry (every file operation of the model is a suspension point, so k lands before the saver first runs, inside each operation of a save, and in its sleep); body ends normally or raises; fault bits: connect fails (with a transport error, or - stub transport - interrupted by CancelledError), disconnect fails; transport kinds: stub, TCPTransport and SerialTransport on fake reader/writer, MQTTClient on a fake broker client; virtual durations D in {0,1,899,900,901,1800,2700} s in a first or a second session of the same gateway object; stub transport whose connect/disconnect suspend or not; persistence file present (2 nodes), missing, or unloadable (5 contents / read fault: the error propagates and the file stays untouched); one partition with file handles of symbolic speed (each handle 1 or 5 suspensions per operation)",
     "thorough": "k sym [0,20], D additionally {3599,3600,9000}",
 }
 REALISED = ["k and D are forked into concrete values (each is one path)"]
@@ -128,6 +128,7 @@ def partitions(tier):
                   "kmax": 12 if q else 20, "budget": 600 if q else 2400, "cost": 8})
     parts.append({"name": "exit-stub-nosuspend", "fn": "sym_exit", "kind": "stub", "missing": 0, "suspend": False,
                   "kmax": 12 if q else 20, "budget": 600 if q else 2400, "cost": 6})
+    parts.append({"name": "entry-load-fails", "fn": "sym_entry_fails", "budget": 300, "cost": 2})
     parts.append({"name": "cadence", "fn": "sym_cadence", "durations": [0, 1, 899, 900, 901, 1800, 2700] + ([] if q else [3599, 3600, 9000]),
                   "budget": 600, "cost": 4})
     return parts
@@ -266,6 +267,51 @@ def sym_exit(inp, part):
     if 9 not in gw.nodes:
         raise Violation("harness:node9", "body did not run")
     return ["body-error-propagated" if body_raises else "exit-ok", kind]
+
+
+def sym_entry_fails(inp, part):
+    """Entering with a persistence file that cannot be loaded: the read error propagates, the file on disk is
+    left exactly as it was (nobody may 'save' an empty registry over it), no task is left behind."""
+    from aiomysensors.exceptions import PersistenceReadError
+    from aiomysensors.gateway import Config, Gateway
+
+    bad = ['{"1": {"node_id": 1, "node_type": 17, "proto', '[1, 2]', '{"1": {"node_id": 1}}', b"\xff\xfe{}", "{\"1\": 5}"][inp.pick("content", 5)]
+    io_fault = bool(inp.bool("read_raises_oserror"))
+    fs = FS({PATH: bad if not io_fault else '{"1": {"node_id": 1, "node_type": 17, "protocol_version": "2.0"}}'}, yielder=_yield,
+            faults=({"read": OSError(5, "Input/output error")} if io_fault else None))
+    before = dict(fs.files)
+    wire(fs, False)
+    tr = LifeTransport()
+    state = {}
+
+    async def main():
+        gw = Gateway(tr, Config(persistence_file=PATH))
+        me = asyncio.current_task()
+        try:
+            async with gw:
+                state["entered"] = True
+        except asyncio.CancelledError as e:
+            state["exc"] = e
+        except Exception as e:  # noqa: BLE001
+            state["exc"] = e
+        state["left"] = len([t for t in asyncio.all_tasks() if t is not me and not t.done()])
+
+    try:
+        try:
+            vloop.run(main)
+        except vloop.Deadlock as e:
+            raise Violation("deadlock", str(e))
+    finally:
+        unwire()
+    if state.get("entered"):
+        raise Violation("entered-despite-unreadable-file", "the context was entered although the persistence file cannot be loaded")
+    if not isinstance(state.get("exc"), PersistenceReadError):
+        raise Violation("entry-failure:%s" % type(state.get("exc")).__name__, "expected PersistenceReadError, got %r" % (state.get("exc"),))
+    if state["left"]:
+        raise Violation("task-left-behind", "%d task(s) left after the failed entry" % state["left"])
+    if dict(fs.files) != before:
+        raise Violation("unreadable-file-overwritten", "a failed entry changed the persistence file: %r -> %r" % (before, dict(fs.files)))
+    return ["connect-failed-clean", "load"]
 
 
 def sym_cadence(inp, part):
